@@ -62,10 +62,12 @@ class Raised:
         self.exc = exc
 
 
-def summarize(fn, *a, **k):
-    """list of (guard, value-or-Raised) for the call fn(*a, **k) under the current path condition"""
+def summarize(fn, *a, _base=None, **k):
+    """list of (guard, value-or-Raised) for the call fn(*a, **k) under the current path condition
+    (or under the explicit assumptions `_base`, which makes the summary reusable on every path that implies them)"""
     parent = core.cur()
-    child = Explorer(stats=parent.stats, base=parent.full_pc(), feas_timeout_ms=parent.feas_timeout_ms, shared=parent.shared)
+    child = Explorer(stats=parent.stats, base=(parent.full_pc() if _base is None else list(_base)), feas_timeout_ms=parent.feas_timeout_ms,
+                     shared=(parent.shared if _base is None else {}))
     res = []
 
     def body(e):
@@ -82,10 +84,10 @@ def summarize(fn, *a, **k):
     return res
 
 
-def merged_call(fn, *a, **k):
+def merged_call(fn, *a, _base=None, **k):
     """call fn with all internal forks merged into If-terms; exceptions on some paths become forks in the parent"""
     parent = core.cur()
-    res = summarize(fn, *a, **k)
+    res = summarize(fn, *a, _base=_base, **k)
     if not res:
         raise core.PathAbort("no feasible path through summarised call")
     for _, _, aux in res:
